@@ -192,6 +192,15 @@ example : repl exCfg (ofString "e:dd") = .ok (ofString "dd") ∧ repl exCfg (ofS
     repl exCfg (ofString "el") = .ok [] ∧ repl exCfg (ofString "z") = .ok [] ∧ repl exCfg (ofString "zz") = .ok [] := by
   decide +kernel
 
+/-! indirect placeholders: a configured value that carries placeholders is processed as if the tag had been written
+    with it — a key reached twice in one tag (repetition, a diamond, inside a default, inside another placeholder's key)
+    resolves every time; only a real cycle ends in the error -/
+example : process diaCfg (ofString "${base}/bin:${base}/lib") = .value (ofString "/opt/app/bin:/opt/app/lib") := by decide +kernel
+example : process diaCfg (ofString "${bin}:${lib}") = .value (ofString "/opt/app/bin:/opt/app/lib") := by decide +kernel
+example : process diaCfg (ofString "${twice}${zz:${base}}") = .value (ofString "/opt/app:/opt/app/opt/app") := by decide +kernel
+example : process diaCfg (ofString "${k${sel}}${k${sel}}") = .value (ofString "/opt/app!/opt/app!") := by decide +kernel
+example : process diaCfg (ofString "${left}") = .error := by decide +kernel
+
 /-! ### known findings pinned by the model (KF-C16-1, KF-C16-2): Go panics, not errors -/
 
 /-- a default that is a lone quote character: strconv2.ParseAny slices `val[1:0]` -/
